@@ -426,7 +426,7 @@ def do_kl(cx, name, st, ex, pt, case, idx):
                target_tensor=tensor_list(arg), plan=plan, space="explicit" if "space" in kw else None)
     o = mb.call(ts.KL, st, arg, **kw)
     path = "KL:%s:%s:%s" % (name, form, "bases" if given else "bases=None")
-    chk.nontriv("KL:%s:%s" % (name, kl_class(case)))
+    chk.nontriv("KL:%s:n%d:%s" % (name, n, kl_class(case)))
     if plan["status"] == "mismatch":
         # keys differ from the requested bases: the library may refuse; if it answers, the answer must be the mean
         # over the requested bases (possible only when every requested basis has a key)
@@ -499,7 +499,7 @@ def do_nll(cx, name, st, ex, pt, case, idx):
     path = "NLL:%s:%s" % (name, "sample_bases" if case["given"] else "sample_bases=None")
     cx.rtype(path, o)
     chk.evaluations += 1
-    chk.nontriv("NLL:%s:%s" % (name, nll_class(case)))
+    chk.nontriv("NLL:%s:n%d:%s" % (name, n, nll_class(case)))
     if o.exc is None and not o.is_plain_real:
         if case["given"] and isinstance(o.value, torch.Tensor):
             chk.violation("NLL:bases-path:returns-tensor", dict(det, returned=o.typename, value=repr(o.value)))
